@@ -33,9 +33,14 @@ def shuffle(x):
     ctx.rng_log.append(rec)
     if n <= 1:
         return
-    ps = [ctx.int(f"{stem}.p{j}", 0, n - 1) for j in range(n)]
+    rec["names"] = [f"{stem}.p{j}" for j in range(n)]
+    ps = [ctx.int(nm, 0, n - 1) for nm in rec["names"]]
     if ctx.mode == "sym":
         ctx.assume_raw(z3.Distinct(*[p.e for p in ps]))
+    elif sorted(ps) != list(range(n)):
+        from .core import PathAbort
+
+        raise PathAbort("precondition false")
     new = [select(orig, p) for p in ps]
     x[:] = new
     rec["perm"] = ps
